@@ -22,16 +22,16 @@ FMT_RULE = ("cases are generated from one splitmix64 state (VERIF_SEED, op, inde
             "over-weighting ASCII punctuation, blanks, tab/CR/LF and non-ASCII text, typed word (empty / prefix of a value / arbitrary / ending in E,ER,ERR), "
             "0-3 messages, a no-space set, environment switches; a case is non-trivial when it has at least one candidate or message; distinct = distinct input digest")
 
-HOOK_COMMITS = ["94169f7", "6cd8fd8", "2937117", "cd2010e"]
+HOOK_COMMITS = ["94169f7", "6cd8fd8", "2937117", "cd2010e", "445b725"]
 
 ENGINES = [
-    {"name": "extractor", "path": "extract/", "serves_properties": ["C02", "C03", "C04", "C05", "C06", "C08", "C09", "C10", "C11", "C12", "C01", "C07", "C13", "C14", "C15", "C16", "C17", "C19", "C20"],
+    {"name": "extractor", "path": "extract/", "serves_properties": ["C02", "C03", "C04", "C05", "C06", "C08", "C09", "C10", "C11", "C12", "C01", "C07", "C13", "C14", "C15", "C16", "C17", "C18", "C19", "C20"],
      "kind_free_text": "Go (go/ast): regenerates lean/Carapace/Gen (replacer tables, character sets, format strings, shell lists) from /repo on every run"},
-    {"name": "lean", "path": "lean/", "serves_properties": ["C02", "C03", "C04", "C05", "C06", "C08", "C09", "C10", "C11", "C12", "C01", "C07", "C13", "C14", "C15", "C16", "C17", "C19", "C20"],
+    {"name": "lean", "path": "lean/", "serves_properties": ["C02", "C03", "C04", "C05", "C06", "C08", "C09", "C10", "C11", "C12", "C01", "C07", "C13", "C14", "C15", "C16", "C17", "C18", "C19", "C20"],
      "kind_free_text": "Lean 4 library: Model (transcription of the code), Spec (readers, decoders, oracles), Props (theorems); compiled driver lean/Driver"},
-    {"name": "harness", "path": "harness/", "serves_properties": ["C02", "C03", "C04", "C05", "C06", "C08", "C09", "C10", "C11", "C12", "C01", "C07", "C13", "C14", "C15", "C16", "C17", "C19", "C20"],
+    {"name": "harness", "path": "harness/", "serves_properties": ["C02", "C03", "C04", "C05", "C06", "C08", "C09", "C10", "C11", "C12", "C01", "C07", "C13", "C14", "C15", "C16", "C17", "C18", "C19", "C20"],
      "kind_free_text": "Go module linking the real packages from /repo with -tags verif; generators and in-process execution, one JSON line per case"},
-    {"name": "runner", "path": "check", "serves_properties": ["C02", "C03", "C04", "C05", "C06", "C08", "C09", "C10", "C11", "C12", "C01", "C07", "C13", "C14", "C15", "C16", "C17", "C19", "C20"],
+    {"name": "runner", "path": "check", "serves_properties": ["C02", "C03", "C04", "C05", "C06", "C08", "C09", "C10", "C11", "C12", "C01", "C07", "C13", "C14", "C15", "C16", "C17", "C18", "C19", "C20"],
      "kind_free_text": "python3 (stdlib): orchestration, known-finding classification by input neutralisation, shrinking, evidence"},
 ]
 
@@ -210,6 +210,25 @@ PROPS.update({
             "level_text": ("Theorems over the model of compat.go: `C20_values` (splitting each served line at the first tab recovers every value with its description, for any description text), `C20_nospace_iff` (NoFileComp always; NoSpace iff some served value ends in a no-space character or the set is `*`), `C20_directive_kind` (for every directive and value list ToA chooses error / directories / extension-filtered files / default files / the described values exactly as the specification read off the property prescribes; `C20_directive_table` is its 64-row instance), `C20_values_from_cobra`, `C20_nospace_honoured_all` (NoSpace is honoured with every non-error directive - true only since fix e3d5247). "
                            "The model is compared exactly with the real functions (op bridge, both directions; the resulting actions are invoked in a scratch directory), and the end-to-end claim - the same candidates through `__complete` as through carapace itself, for completions registered on either side - is decided on the real code for generated trees and value positions (op ccomplete)."),
             "level_note": BRIDGE_NOTE},
+})
+
+ENTRY_RULE = ("op entry: the harness binary re-executes itself as a program built on a random cobra tree (as for C01/C07; slots registered from a menu of 12 actions: markers, files, directories, a failing external command, a command that does not exist, a callback reporting an error, MultiParts, ActionMultiPartsN + Chdir, long multi-byte / multi-line / given descriptions, styled values with tag and usage, Batch + Prefix + UniqueList, ActionImport of invalid JSON) "
+              "as a child process of a process named like a shell (bash, nu, cmd, zsh, fish, elvish, pwsh, xonsh, tcsh, osh, ion, an unknown name; bash-ble through its environment), so that ps.DetermineShell and the per-shell argument patching run for real; "
+              "argv = `_carapace` + [] | [shell] | [shell, program] | [shell, program, words...] with all 13 shell names and unknown ones (empty, upper case, invalid UTF-8, trailing blank), odd program names; words from a plausible line for the tree mixed with empty words, lone dashes, `=` forms, open quotes and backslashes, invalid UTF-8, 200-6000 character words, `~` / `~name` / `~name/` forms, paths, control characters, redirection and pipe tokens, `_` / ERR prefixes; "
+              "environment: COMP_LINE / COMP_POINT (consistent, negative, beyond the line, not a number, beyond int64, one without the other, lines ending in a redirect, pipe, open quote or backslash), COMP_TYPE, COMP_WORDBREAKS, CARAPACE_COMPLINE, CARAPACE_MATCH, CARAPACE_ZSH_HASH_DIRS (well and ill formed), NO_COLOR, CARAPACE_HIDDEN / LENIENT / UNFILTERED / COVERDIR / LOG / TOOLTIP / SANDBOX, HOME and XDG_CONFIG_HOME unset-like values. "
+              "ops compline / trimdesc / abs: the three modelled functions in-process on generated inputs around their boundaries. every case counts as non-trivial (each is one process run or one boundary input); distinct = distinct input digest")
+ENTRY_NOTE = ("Trusted: Lean kernel + propext/Classical.choice/Quot.sound (`C18_sites_covered` uses `decide +kernel`: kernel evaluation, no axiom); the consumer-side decoders of lean/Carapace/Spec/Decode.lean and the JSON parser of Lean's library as the definition of 'well formed'; the harness, the generators, the 20 s limit that defines a hang. "
+              "Modelled and proved total: bash.CompLine, RawValue.TrimmedDescription, namedDirectories.match / Replace, expandHome, Context.Abs. Everything else on the entry path (traverse, the lexer, cobra, the formatters' index arithmetic) is NOT modelled: for it the property is searched on the real code by mass generation, and the regenerated site inventory pins the source the search was run against - a theorem about the inventory, not about those sites' safety. Memory exhaustion, signals and OS errors are outside.")
+
+PROPS.update({
+    "C18": {"modules": ["Carapace.Props.C18"], "ops": [("entry", {"quick": 4000, "thorough": 200000}), ("compline", {"quick": 3000, "thorough": 100000}), ("trimdesc", {"quick": 3000, "thorough": 100000}), ("abs", {"quick": 3000, "thorough": 100000})],
+            "rule": ENTRY_RULE, "assumptions": ["the observable is the one the property names: exit status, stderr and decodability of stdout of a child process", "a hang is no answer within 20 s (the machine may be loaded by 16 parallel children)"],
+            "claimed": True, "engine": "total",
+            "technique": "machine-checked proof in Lean 4 (explicit-panic models of the slice arithmetic, kernel-decided site inventory regenerated from the source) + differential correspondence; the unmodelled remainder of the entry path is searched by generated child processes (partial)",
+            "level_text": ("Partial: proof for the modelled functions, search on the real code for the rest (the runtime behaviour - panics inside unmodelled code, hangs - cannot be exhibited by the model). Proved for every input, in a model where Go's slice and index expressions are operations that can fail (`Except Panic`): `C18_compLine_total` (bash.CompLine never panics whatever COMP_LINE / COMP_POINT hold - true only since fix 3cb8b85) with `C18_compLine_prefix`, `C18_trimmed_total` / `C18_trimmed_source` (TrimmedDescription's `[:maxLength-3]` is in range for the limit read from the source, and the function equals the total one used by the formatter theorems), `C18_ndMatch_total`, `C18_ndReplace_total` (`SplitN(s, \"/\", 2)[1]` is reached only when the string contains `/`), `C18_expandHome_total`, `C18_abs_total`; a decided witness that the failure is expressible (`C18_trimmed_small_limit_panics`). "
+                           "`C18_sites_covered`: the inventory of every index / slice / panic / Must* expression of 38 files on the entry path, each with the conditions guarding it, regenerated from /repo on every run, equals the inventory the runs below were made for (kernel-decided). The models are compared exactly with the real functions (ops compline, trimdesc, abs). "
+                           "Decided on the real code: thousands of child processes per run with generated argv / environment / ancestor shell / command tree; oracle: exit status 0, no goroutine dump, an answer within the limit, stdout decodable by the requested shell's consumer-side decoder, nothing but white space for unknown shells."),
+            "level_note": ENTRY_NOTE},
 })
 
 
